@@ -1,9 +1,10 @@
-// U29 hexane prefix sums -- rust/hexane/src/prefix.rs: PrefixValue for u32 / NonZeroU32        (engine V)
+// U29 hexane prefix sums -- rust/hexane/src/prefix.rs: PrefixValue for u32 / NonZeroU32, PrefixWeightFn::accumulate_run        (engine V)
 //
 // C35 / C15: `PrefixColumn<u32>` accumulates values and run counts taken from untrusted bytes WHILE a column is being
 // loaded (automerge loads the successor-count column of a document this way).  For every running total, every value
 // and every run length the accumulation saturates -- exact postcondition, no precondition (D24 lived here).
 use vstd::prelude::*;
+use core::ops::{AddAssign, SubAssign};
 verus! {
 global layout usize is size == 8;
 
@@ -34,6 +35,28 @@ impl ForNonZeroU32 {
         ensures *final(target) == (if *old(target) + run.value.get() * run.count > u64::MAX { u64::MAX as int } else { *old(target) + run.value.get() * run.count }),
 //@   before /\*target/
         proof { assert(run.value.get() as int * run.count as int >= 0) by (nonlinear_arith); }
+//@ end
+}
+
+// ---- the per-slab weight of a prefix column: its item count is a sum of untrusted run counts (D29 lived here)
+pub enum PackError { InvalidValue(String), Other }
+/// the error text (a `&str` literal `.into()` a String; strings are opaque to this Verus)
+#[verifier::external_body] pub fn vf_msg() -> String { unimplemented!() }
+/// the two associated items of `PrefixValue` / `ColumnValueRef` this function names (ASSUMED: arbitrary accumulation)
+pub trait PrefixValue { type Prefix: Clone + Default + core::fmt::Debug + AddAssign + SubAssign; type Get; fn accumulate_run(target: &mut Self::Prefix, run: &Run<Self::Get>); }
+//@ item rust/hexane/src/prefix.rs | struct PrefixSlabWeight
+pub struct ForWeightFn<T>(core::marker::PhantomData<T>);
+impl<T: PrefixValue> ForWeightFn<T> {
+//@ fn rust/hexane/src/prefix.rs | impl<T: PrefixValue, C: Codec> WeightFn<T, C> for PrefixWeightFn<T> | accumulate_run
+//@   ret r
+//@   subst /Self::Weight/ => PrefixSlabWeight<T::Prefix>
+//@   subst /T::Get<'_>/ => T::Get
+//@   subst /crate::PackError/ => PackError
+//@   subst /"column length out of range"\.into\(\)/ => vf_msg()
+//@   spec
+        // any count: the item count grows by exactly `count` or the load fails -- it never wraps, never panics
+        ensures r is Ok ==> final(weight).len == old(weight).len + count,
+            r is Err ==> old(weight).len + count > usize::MAX,
 //@ end
 }
 
